@@ -2,6 +2,8 @@ import SqlModel.Default
 import SqlModel.RegexCost
 import SqlProofs.RegexCost
 import SqlProofs.StrTemplate
+import SqlModel.LexCost
+import SqlProofs.LexCost
 /-!
 # C16 — no lexical rule can backtrack exponentially
 
@@ -12,7 +14,7 @@ state (the source of exponential blow-up).  `cert_sound` (SqlProofs/RegexCost.le
 -/
 /-!
 ## Hypotheses audit (C16)
-No theorem of this file restricts the input: `rule_work_poly`, `string_rules_poly`, `every_rule_poly` hold for every subject string and
+No theorem of this file restricts the input: `rule_work_poly`, `string_rules_poly`, `every_rule_poly`, `lex_work_poly` hold for every subject string and
 every start position.  The hypotheses `cert r.re = some c` / `isStrTemplate r.re` are properties of the rule, and
 `rules_poly_or_template` (evaluated over the regenerated table) says every rule has one of them; the example at the end shows the
 certificate refuses `(a|a)*`, `(a*)*` and the historical overlapping string body.
@@ -65,6 +67,44 @@ theorem every_rule_poly (s : Array Cp) (r : Rule) (hr : r ∈ defaultCfg.rules) 
         _ ≤ _ := Nat.mul_le_mul_right _ (Nat.le_add_left _ _)
   · obtain ⟨h1, h2⟩ := string_rules_poly s r hr ht p
     refine ⟨16, 1, ?_, ?_⟩ <;> simp only [Nat.pow_one] <;> omega
+
+/-! ## the whole lexer
+
+`lexWork cfg s` (SqlModel/LexCost.lean): total size of the backtracking search trees of ALL match attempts the scan loop makes on `s` — at
+every scan position the rules tried in table order up to and including the first that matches (all of them when none matches), each
+attempt measured by `work` exactly as in `rule_work_poly`.  `lexPB rules` is computed from the table: coefficient = sum of the per-rule
+work coefficients (certificate, or 16·N for the two quoted-string templates), degree = maximal per-rule work degree + 1 (one factor for
+the at most `|s|` scan steps; every step advances because a token is at least one character long). -/
+
+/-- **tokenizing work is polynomial in the input length**: for every text, the total work of the scan loop is at most
+`c · (|s| + 1)^d` with `c`, `d` computed from the regenerated table (`lex_degree`, `lex_coefficient`) -/
+theorem lex_work_poly (s : Array Cp) :
+    lexWork defaultCfg s ≤ (lexPB defaultCfg.rules).c * (s.size + 1) ^ (lexPB defaultCfg.rules).d :=
+  lexWork_le defaultCfg rules_poly_or_template s
+
+/-- the existential form, with the constants spelled out -/
+theorem lex_work_poly_exists : ∃ c d : Nat, ∀ s : Array Cp, lexWork defaultCfg s ≤ c * (s.size + 1) ^ d :=
+  ⟨_, _, lex_work_poly⟩
+
+/-- the degree of the bound for the current table: 6 = (largest certified work degree of a rule, 5) + 1.  A table change that raises the
+degree changes this decided fact, not the proof of `lex_work_poly`.  (The certificates are coarse: e.g. the JOIN rule's nested optional
+groups are bounded by a product of bounds; the true work is far smaller.) -/
+theorem lex_degree : (lexPB defaultCfg.rules).d = 6 := by decide +kernel
+
+theorem lex_coefficient : (lexPB defaultCfg.rules).c = 183998 := by decide +kernel
+
+/-- the per-rule work degrees the bound is made of (rule order of the table) -/
+theorem rule_work_degrees :
+    defaultCfg.rules.map (fun r => (rulePB r).d) =
+      [1, 1, 1, 1, 0, 1, 0, 0, 0, 1, 1, 2, 0, 2, 1, 1, 0, 1, 2, 1, 1, 2, 5, 3, 2, 1, 1, 1, 1, 5, 2, 1, 4, 0, 1, 1, 4, 1, 1, 1, 1, 1, 1,
+       2, 4, 2, 2, 1, 0, 1, 1, 1] := by decide +kernel
+
+/-- executing the cost model: `select 'a''b' from t` costs 921 tree nodes in total (driver command `lexwork`), far below the certified bound -/
+example : lexWork defaultCfg #[115, 101, 108, 101, 99, 116, 32, 39, 97, 39, 39, 98, 39, 32, 102, 114, 111, 109, 32, 116] ≤
+    183998 * 21 ^ 6 := by
+  have := lex_work_poly #[115, 101, 108, 101, 99, 116, 32, 39, 97, 39, 39, 98, 39, 32, 102, 114, 111, 109, 32, 116]
+  rw [lex_degree, lex_coefficient] at this
+  exact this
 
 /-- the certificate is not vacuous and not trivially permissive: `(a|a)*`, `(a*)*` and the historical overlapping string body get none;
 `(``|[^`])*` (disjoint first sets) gets one -/
